@@ -56,9 +56,9 @@ CHECKS = {
    text="For every program of the library (constants from none/some/all parties), leader and output-destination mask the explorer enumerates schedule-arrival and coordination-delivery orders depth first (complete for n=2 within the budget, bounded for n=3) and samples random orders that interleave MPC messages. At quiescence every schedule returned Ok, each destination got exactly one result equal to the native reference, every actor stopped without panic and all permits are back.",
    note="Quiescence is exact (paused clock + no pending delivery + no extra OS thread). DFS does not branch on MPC message deliveries; n=3 is not exhausted in quick."),
  "C14": dict(level="fault_enumeration", ref="DESIGN.md §3 C14", engine="pv-server",
-   technique="runtime monitoring with command injection at every idle point of a gated run; replies, actor JoinHandle and outcome of the computation observed",
+   technique="runtime monitoring with command injection at every idle point of a gated run (and queued right behind each action, in bursts, before the follower's schedule); replies, actor JoinHandle and outcome of the computation observed; plus real polytune-http-server instances on loopback sockets with stray HTTP requests",
    text="At every (quick: every k-th) idle point of a normal 2-/3-party run one stray command is injected at each party (duplicate schedule, run, consts, validate, mpc_msg with out-of-range sender, mpc_msg before scheduling). Commands that are invalid in every state the actor can be in (decided from the RPC history) must be answered Err; no actor may panic; the computation must still satisfy the C13 oracle.",
-   note="Commands whose validity is ambiguous at the injection point are judged for 'no panic' only. The HTTP layer is not driven."),
+   note="Commands whose validity is ambiguous at the injection point are judged for 'no panic' only. The HTTP layer (api.rs) is driven by the second crate httpx with wall-clock timing: verdicts only on HTTP answers and on results that arrived; a result missing after 60 s is inconclusive."),
  "C15": dict(level="fault_enumeration", ref="DESIGN.md §3 C15", engine="pv-server",
    technique="runtime monitoring with cancel injection after every event (incl. while the compile thread is alive); ordering of cancel() completion vs output() calls, actor state and permits at quiescence",
    text="cancel() is injected at every idle point on each party with gated and ungated MPC messages, while the compile thread of a heavier program is alive, after a stray (rejected) command, together with a consts call that later fails, and on a multi-thread runtime after k*0.7 ms. If it returned Ok: the actor has stopped, a scheduled party with a destination got exactly one notification (Cancelled or the real result), none after cancel returned, and the party's permit is back.",
